@@ -276,6 +276,11 @@ func c16MakeProbe(r *RNG, u *c16Universe) *c16Probe {
 			p.Lines, p.PLine, p.Before, p.After = []string{date + " probe-desc", "", filler}, 1, before, after
 		}
 	case "payee":
+		// text that reads as a status mark, a code or a comment is not a payee fragment
+		if p.Frag != "" && strings.ContainsRune("(*!;|=", rune(p.Frag[0])) {
+			p.Frag, p.FragKind = "", "empty"
+			rest = ""
+		}
 		v := Pick(r, []string{"plain", "plain", "status", "code", "status+code", "date2"})
 		p.Variant = v
 		before := date + " "
@@ -295,7 +300,15 @@ func c16MakeProbe(r *RNG, u *c16Universe) *c16Probe {
 		p.Variant = v
 		switch v {
 		case "directive":
-			p.Lines, p.PLine, p.Before, p.After = []string{""}, 0, "commodity ", rest
+			before := "commodity "
+			if strings.ContainsAny(p.Frag+p.Target, " \t0123456789-+.,@=;()*!") {
+				before += `"`
+				p.Variant += "/quoted"
+				if rest != "" {
+					rest += `"`
+				}
+			}
+			p.Lines, p.PLine, p.Before, p.After = []string{""}, 0, before, rest
 		default:
 			before := map[string]string{"amount": "    probe:filler  10 ", "negative": "    probe:filler  -10 ", "decimal": "    probe:filler  1,000.50 ",
 				"cost": "    probe:filler  10 PRB @ 2 ", "total-cost": "    probe:filler  10 PRB @@ 20 ", "assert": "    probe:filler  10 PRB = 50 ", "assert-only": "    probe:filler  = 50 "}[v]
